@@ -128,6 +128,11 @@ func (x *Ctx) Seen(canon []byte) bool {
 	h ^= uint64(x.Case+1) * 0x9e3779b97f4a7c15
 	x.r.states[h] = struct{}{}
 	k := h*31 + uint64(x.Budget())
+	if len(x.points) < len(x.prefix) {
+		// still replaying the prefix: these states were expanded by the ancestors of this execution
+		x.r.expanded[k] = struct{}{}
+		return false
+	}
 	if _, ok := x.r.expanded[k]; ok {
 		x.cut = true
 		x.r.pruned++
@@ -222,6 +227,10 @@ type Scenario struct {
 	// PanicIsViolation: an unexpected panic in Run is a violation with this signature prefix
 	// ("" = harness error).
 	PanicSig string
+	// CrashSig: if non-empty, the death of the worker process while exploring a case of this
+	// scenario (a panic in a goroutine of the code under test, a fatal runtime error) is a
+	// VIOLATION with signature CrashSig+":"+<first repository frame>, not a tooling error.
+	CrashSig string
 	// Setup runs once per worker process before any case.
 	Setup func(tier string)
 	// SerialOnly: cases must not run concurrently in one process (always true: one case at a time per process).
